@@ -55,6 +55,7 @@ type RetryOpts struct {
 	HookEvents    bool   `json:"hookEvents,omitempty"`
 	SampleAfterMs int    `json:"sampleAfterMs,omitempty"`
 	DisconnectAt  string `json:"disconnectAt,omitempty"`
+	NoReestablish bool   `json:"noReestablish,omitempty"` // the scenario ends without a healthy connection on purpose
 }
 
 // RetryScenario is the input of the retry family.
@@ -147,7 +148,23 @@ func runRetry(sc *RetryScenario) *RetryResult {
 	ctx, cancel := context.WithDeadline(context.Background(), deadline.Add(3*time.Second))
 	defer cancel()
 
-	stats := func() mqtt.RetryStats { return cli.Stats() }
+	statsHung := false
+	stats := func() mqtt.RetryStats {
+		// Stats takes the client's mutex: bounded, so that a client wedged by a panic under the lock
+		// shows up as a finding of the scenario and not as a hung driver
+		if statsHung {
+			return mqtt.RetryStats{}
+		}
+		ch := make(chan mqtt.RetryStats, 1)
+		go func() { ch <- cli.Stats() }()
+		select {
+		case st := <-ch:
+			return st
+		case <-time.After(time.Second):
+			statsHung = true
+			return mqtt.RetryStats{QueuedTasks: -1}
+		}
+	}
 	isQuiet := func() bool {
 		st := stats()
 		cur := w.Current()
@@ -163,6 +180,8 @@ func runRetry(sc *RetryScenario) *RetryResult {
 		return false
 	}
 
+	connCtx, connCancel := context.WithCancel(ctx)
+	defer connCancel()
 	connDone := make(chan struct{})
 	var connErr error
 	var connOnce sync.Once
@@ -182,13 +201,15 @@ func runRetry(sc *RetryScenario) *RetryResult {
 					return nil
 				}}
 				rec.Emit(netsim.Event{"e": "Call", "c": 0, "kind": "Connect"})
-				_, connErr = cli.Connect(ctx, "verif-client", copts...)
+				_, connErr = cli.Connect(connCtx, "verif-client", copts...)
 				rec.Emit(netsim.Event{"e": "Ret", "c": 0, "kind": "Connect", "res": netsim.ErrClass(connErr)})
 			}()
 		})
 	}
 
 	nreq := 0
+	disconnected := false
+	var discWG sync.WaitGroup
 	releasedNames := map[string]bool{}
 	submit := func(r Req) {
 		switch r.K {
@@ -229,6 +250,25 @@ func runRetry(sc *RetryScenario) *RetryResult {
 			}
 		case "sleep":
 			time.Sleep(ms(r.Ms, 10))
+		case "cancelconnect":
+			connCancel()
+		case "disconnect":
+			// issued asynchronously: the caller may be holding the loop at a gate
+			disconnected = true
+			discWG.Add(1)
+			go func() {
+				defer discWG.Done()
+				dctx, dcancel := context.WithTimeout(context.Background(), 2*time.Second)
+				defer dcancel()
+				rec.Emit(netsim.Event{"e": "Call", "c": 1, "kind": "Disconnect"})
+				derr := safeDisconnect(cli, dctx)
+				rec.Emit(netsim.Event{"e": "Ret", "c": 1, "kind": "Disconnect", "res": derr})
+			}()
+			time.Sleep(time.Millisecond)
+		case "malformed":
+			if cur := w.Current(); cur != nil {
+				cur.SendRaw([]byte{0xF0, 0x00}, "reserved-type")
+			}
 		case "peerclose":
 			if cur := w.Current(); cur != nil {
 				cur.PeerClose()
@@ -323,7 +363,12 @@ func runRetry(sc *RetryScenario) *RetryResult {
 	case <-connDone:
 	case <-time.After(time.Until(deadline)):
 	}
-	drained := waitQuiet()
+	drained := false
+	if !disconnected && !sc.Opts.NoReestablish {
+		drained = waitQuiet()
+	} else {
+		time.Sleep(quiet)
+	}
 	st := stats()
 	cur := w.Current()
 	curG := 0
@@ -337,6 +382,7 @@ func runRetry(sc *RetryScenario) *RetryResult {
 		time.Sleep(ms(sc.Opts.SampleAfterMs, 0))
 		sampleClient(rec, cli, w)
 	}
+	info["statsHung"] = statsHung
 	info["unreached"] = unreached
 	info["unusedRules"] = w.UnusedRules()
 	info["conns"] = w.NumConns()
@@ -345,7 +391,12 @@ func runRetry(sc *RetryScenario) *RetryResult {
 		info["subEst"] = fmt.Sprint(rc.VerifSubEstablished())
 	}
 	w.ReleaseAllGates()
-	if !sc.Opts.NoDisconnect {
+	if disconnected {
+		w.ReleaseAllGates()
+		discWG.Wait()
+		time.Sleep(ms(sc.Opts.QuietMs, 30))
+	}
+	if !sc.Opts.NoDisconnect && !disconnected {
 		dctx, dcancel := context.WithTimeout(context.Background(), 2*time.Second)
 		rec.Emit(netsim.Event{"e": "Call", "c": 1, "kind": "Disconnect"})
 		derr := safeDisconnect(cli, dctx)
@@ -362,7 +413,9 @@ func runRetry(sc *RetryScenario) *RetryResult {
 		mqtt.VerifSetHook(nil)
 	}
 	cfg := map[string]interface{}{"deliverOnRel": sc.Opts.DeliverOnRel, "alwaysResub": sc.Opts.AlwaysResub,
-		"respTimeout": sc.Opts.RespTimeoutMs > 0, "autoRelease": true, "directQoS0": sc.Opts.DirectQoS0}
+		"respTimeout": sc.Opts.RespTimeoutMs > 0, "autoRelease": true, "directQoS0": sc.Opts.DirectQoS0, "mode": "reconn",
+		"reconnBaseUs": ms(sc.Opts.ReconnBaseMs, 2).Microseconds(), "reconnMaxUs": ms(sc.Opts.ReconnMaxMs, 10).Microseconds(),
+		"noReestablish": sc.Opts.NoReestablish || disconnected}
 	return &RetryResult{ID: sc.ID, Cfg: cfg, Evs: rec.Snapshot(), Info: info}
 }
 
@@ -397,7 +450,7 @@ func sampleClient(rec *netsim.Recorder, cli mqtt.ReconnectClient, w *netsim.Worl
 		if err != nil {
 			es = err.Error()
 		}
-		rec.Emit(netsim.Event{"e": "Sample", "g": g, "err": netsim.ErrClass(err), "errs": es, "done": done, "closed": t.IsClosed(), "inited": dch != nil})
+		rec.Emit(netsim.Event{"e": "Sample", "g": g, "err": netsim.ErrClass(err), "errs": es, "done": done, "closed": t.IsClosed(), "inited": dch != nil, "final": false})
 	}
 }
 
